@@ -82,7 +82,10 @@ Definition env_local (e : env) (s : N) : bool :=
 (* what the driver observed: per UpdateFrom call whether it returned an error; after the last call, if it
    succeeded, the rendered Config fields of the watched parameters and RawValues() sorted by name *)
 Record obs := mk_obs {
-  o_errs : list bool;
+  o_errs : list bool;                        (* per call: it returned an error *)
+  o_cerrs : list bool;                       (* per call: Config.Err != nil afterwards *)
+  o_changed : list (option (list bytes));    (* per call: UpdateFromConfigUpdate's changedFields sorted; for UpdateFrom
+                                                ["*"] / [] for changed = true / false; None when not observed *)
   o_vals : list bytes;
   o_raws : list (bytes * bytes)
 }.
@@ -90,7 +93,7 @@ Record case := mk_case {
   c_fixed : bool;                       (* tree variant, probed by the driver on the real code *)
   c_sorted : bool;
   c_parse : list ((bytes * bytes) * option bytes);   (* the real Parse on every (parameter, raw) pair of the case *)
-  c_ups : list (N * list (bytes * bytes));           (* UpdateFrom(map, source) calls in order *)
+  c_ups : list (upd bytes bytes);                    (* UpdateFrom / UpdateFromConfigUpdate calls in order *)
   c_watch : list bytes;                 (* field names whose values were observed *)
   c_obs : list obs                      (* distinct observations over repeated runs (one if deterministic) *)
 }.
@@ -102,8 +105,16 @@ Fixpoint list_eqb {A} (eqb : A -> A -> bool) (a b : list A) : bool :=
   | _, _ => false
   end.
 Definition pair_eqb (x y : bytes * bytes) := beqb (fst x) (fst y) && beqb (snd x) (snd y).
+Definition ochg_eqb (x y : option (list bytes)) : bool :=
+  match x, y with
+  | None, None => true
+  | Some a, Some b0 => list_eqb beqb a b0
+  | _, _ => false
+  end.
 Definition obs_eqb (x y : obs) : bool :=
-  list_eqb Bool.eqb (o_errs x) (o_errs y) && list_eqb beqb (o_vals x) (o_vals y)
+  list_eqb Bool.eqb (o_errs x) (o_errs y) && list_eqb Bool.eqb (o_cerrs x) (o_cerrs y)
+  && list_eqb ochg_eqb (o_changed x) (o_changed y)
+  && list_eqb beqb (o_vals x) (o_vals y)
   && list_eqb pair_eqb (o_raws x) (o_raws y).
 
 Section Run.
@@ -112,18 +123,34 @@ Section Run.
   Let known := known_in (e_known e).
   Let parse := parse_in (c_parse c).
 
-  Definition m_resolve_all (ups : list (N * list (bytes * bytes))) :=
-    run_updates beqb bleb lower_b is_none_b is_empty_b known parse (e_srcs e) (env_local e)
-                (c_fixed c) (c_sorted c) [] ups.
+  Definition m_history (ups : list (upd bytes bytes)) :=
+    run_history beqb bleb lower_b is_none_b is_empty_b known parse (e_srcs e) (env_local e) beqb
+                (c_fixed c) (c_sorted c) ups.
 
   Definition is_err {A} (r : option A) : bool := match r with None => true | Some _ => false end.
 
-  Definition model_obs (ups : list (N * list (bytes * bytes))) : obs :=
-    let rs := m_resolve_all ups in
-    match last rs None with
-    | None => mk_obs (map is_err rs) [] []
+  (* UpdateFrom only says whether anything changed *)
+  Definition show_changed (u : upd bytes bytes) (ch : option (list bytes)) : option (list bytes) :=
+    match u, ch with
+    | UFrom _ _, Some [] => Some []
+    | UFrom _ _, Some _ => Some [[42]]
+    | _, _ => ch
+    end.
+  Fixpoint map2 {A B C} (f : A -> B -> C) (a : list A) (b0 : list B) : list C :=
+    match a, b0 with
+    | x :: a', y :: b' => f x y :: map2 f a' b'
+    | _, _ => []
+    end.
+
+  Definition model_obs (ups : list (upd bytes bytes)) : obs :=
+    let ks := m_history ups in
+    let errs := map (@k_err _ _ _) ks in
+    let cerrs := map (@k_cerr _ _ _) ks in
+    let chs := map2 show_changed ups (map (@k_changed _ _ _) ks) in
+    match last (map (@k_res _ _ _) ks) None with
+    | None => mk_obs errs cerrs chs [] []
     | Some st =>
-        mk_obs (map is_err rs)
+        mk_obs errs cerrs chs
                (map (fun n => match known (lower_b n) with
                               | Some m => effective beqb st m
                               | None => []
@@ -151,12 +178,14 @@ Section Run.
   Definition ambiguous (kvs : list (bytes * bytes)) : bool := has_dup (map (fun kv => lower_b (fst kv)) kvs).
   Definition orders_of (kvs : list (bytes * bytes)) : list (list (bytes * bytes)) :=
     if negb (c_sorted c) && ambiguous kvs && Nat.leb (length kvs) 5 then perms kvs else [kvs].
-  Fixpoint all_orders (ups : list (N * list (bytes * bytes))) : list (list (N * list (bytes * bytes))) :=
+  (* (only UpdateFrom calls are permuted; the sorted tree needs no permutations at all) *)
+  Fixpoint all_orders (ups : list (upd bytes bytes)) : list (list (upd bytes bytes)) :=
     match ups with
     | [] => [[]]
-    | (s, kvs) :: t =>
+    | UFrom s kvs :: t =>
         let rest := all_orders t in
-        flat_map (fun o => map (cons (s, o)) rest) (orders_of kvs)
+        flat_map (fun o => map (cons (UFrom s o)) rest) (orders_of kvs)
+    | u :: t => map (cons u) (all_orders t)
     end.
 
   Definition model_agrees : bool :=
@@ -165,10 +194,10 @@ Section Run.
 
   (* ---- the oracle: Spec on the implementation's observations ---- *)
   Definition s_store := store (K := bytes) is_empty_b.
-  Fixpoint cfgs_after (cf : cfg bytes bytes) (ups : list (N * list (bytes * bytes))) : list (cfg bytes bytes) :=
+  Fixpoint cfgs_after (cf : cfg bytes bytes) (ups : list (upd bytes bytes)) : list (cfg bytes bytes) :=
     match ups with
     | [] => []
-    | (s, kvs) :: t => let c' := s_store cf s kvs in c' :: cfgs_after c' t
+    | u :: t => let c' := apply_upd is_empty_b cf u in c' :: cfgs_after c' t
     end.
   (* the ORACLE takes the priority order and the local sources from the property text, not from the code:
      internal override (6), environment (5), config file (4), per-host (3), per-selector (2), global datastore (1);
@@ -188,6 +217,7 @@ Section Run.
   Definition ok_obs (o : obs) : bool :=
     let cfs := cfgs_after [] (c_ups c) in
     all2 s_ok_err cfs (o_errs o)
+    && all2 (fun er ce => implb er ce) (o_errs o) (o_cerrs o)      (* an error return leaves Config.Err set *)
     && match last (o_errs o) true with
        | true => true
        | false => all2 (s_ok_value (last cfs [])) (c_watch c) (o_vals o)
